@@ -1,6 +1,7 @@
 package vc
 
 import (
+	"os/exec"
 	"encoding/json"
 	"flag"
 	"fmt"
@@ -80,6 +81,9 @@ func cmdCheck(args []string) int {
 	seed, _ := strconv.Atoi(os.Getenv("VERIF_SEED"))
 	t0 := time.Now()
 	code, ev := runCheck(*prop, *tier, seed)
+	if *tier == "thorough" && code == 0 && os.Getenv("VCHECK_NESTED") == "" && os.Getenv("VCHECK_SELFTEST") != "0" {
+		ev.Coverage["selftest"] = selfTest(*prop)
+	}
 	ev.WallS = time.Since(t0).Seconds()
 	os.MkdirAll(filepath.Join(outDir(), "evidence"), 0o755)
 	b, _ := json.MarshalIndent(ev, "", " ")
@@ -488,4 +492,76 @@ func (P *Program) isInterfaceMethod(key string) bool {
 		}
 	}
 	return false
+}
+
+
+// selfTest (thorough tier): the must-fail corpus. Every seeded change kept for this property under <verif>/seeded/<prop>-k
+// (a change that compiles, passes the test suite and breaks the property; written by independent sub-agents, confirmed against
+// the real code) is applied to a scratch copy of the repository's current working tree, and the property's quick check is run on
+// that copy: it must report a violation. The outcome is recorded in the evidence ("caught" / "MISSED" / "does not apply"); it does
+// not change the exit code (a check that misses a known seeded change is weaker than hoped, not wrong about the current tree).
+func selfTest(prop string) []map[string]string {
+	var out []map[string]string
+	dirs, _ := filepath.Glob(filepath.Join(VerifDir, "seeded", prop+"-*"))
+	sort.Strings(dirs)
+	self, err := os.Executable()
+	if err != nil {
+		return out
+	}
+	for _, d := range dirs {
+		id := filepath.Base(d)
+		patch := filepath.Join(d, "patch.diff")
+		if _, err := os.Stat(patch); err != nil {
+			continue
+		}
+		rec := map[string]string{"seed": id}
+		tmp, err := os.MkdirTemp("", "vcheck-selftest-")
+		if err != nil {
+			continue
+		}
+		work := filepath.Join(tmp, "repo")
+		cp := exec.Command("rsync", "-a", "--exclude", ".git", RepoDir+"/", work+"/")
+		if b, err := cp.CombinedOutput(); err != nil {
+			rec["result"] = "copy failed: " + trunc(string(b), 200)
+			out = append(out, rec)
+			os.RemoveAll(tmp)
+			continue
+		}
+		ap := exec.Command("git", "apply", "--whitespace=nowarn", patch)
+		ap.Dir = work
+		if b, err := ap.CombinedOutput(); err != nil {
+			rec["result"] = "does not apply to the current tree: " + trunc(strings.TrimSpace(string(b)), 160)
+			out = append(out, rec)
+			os.RemoveAll(tmp)
+			continue
+		}
+		c := exec.Command(self, "check", "--prop", prop, "--tier", "quick")
+		c.Env = append(os.Environ(), "VCHECK_NESTED=1", "VCHECK_REPO="+work, "VCHECK_OUT="+filepath.Join(tmp, "out"))
+		b, _ := c.CombinedOutput()
+		code := c.ProcessState.ExitCode()
+		var first string
+		for _, ln := range strings.Split(string(b), "\n") {
+			if strings.HasPrefix(ln, "VIOLATION ") {
+				if i := strings.Index(ln, "obligation="); i >= 0 {
+					first = strings.Fields(ln[i+len("obligation="):])[0]
+				}
+				break
+			}
+		}
+		switch {
+		case code == 1 && first != "":
+			rec["result"] = "caught"
+			rec["first_failed_obligation"] = first
+			fmt.Printf("selftest: %s caught (%s)\n", id, first)
+		case code == 0:
+			rec["result"] = "MISSED"
+			fmt.Printf("SELFTEST-MISS: property=%s seeded change %s is not detected by this check\n", prop, id)
+		default:
+			rec["result"] = fmt.Sprintf("engine error (exit %d)", code)
+			fmt.Printf("selftest: %s: engine error (exit %d)\n", id, code)
+		}
+		out = append(out, rec)
+		os.RemoveAll(tmp)
+	}
+	return out
 }
